@@ -18,6 +18,7 @@ so `Readable` excludes them; the correspondence check validates reals against th
 round trip.
 -/
 import RuschmProofs.PrintLemmas
+import RuschmProofs.C06
 
 namespace Ruschm.C16
 open Ruschm Ruschm.Text Ruschm.Print Ruschm.Print.Samples
@@ -116,5 +117,44 @@ example : Prim.display store 100000 value = text := by
   have h := display_is_show store value 100000 (by decide) (by decide)
   rw [h]; decide
 end Example
+
+/-! ## 3. The printed text is valid source text: it reads back as one datum -/
+
+/-- DISPLAY_READ_ROUNDTRIP. The text `display` prints for a readable value is read by the reader
+without error as exactly one datum, and that datum is — up to source locations — `datumOf σ v`.
+(By `C06.read_render_datum` applied to `display_is_render`.) -/
+theorem display_read_roundtrip (σ : Store) (v : Value) (fuel : Nat) (hv : Readable σ v)
+    (hf : (datumOf σ v).size ≤ fuel) :
+    ∃ d, Read.all (Prim.display σ fuel v).toList = ([d], none) ∧
+      d.strip = (datumOf σ v).strip := by
+  obtain ⟨ht, hl, hs⟩ := display_is_render σ v fuel hv hf
+  have h := C06.read_render_datum (datumOf σ v) hs _ hl
+  rw [← ht] at h
+  rcases hr : Read.all (Prim.display σ fuel v).toList with ⟨ds, e⟩
+  rw [hr] at h
+  obtain ⟨h1, h2⟩ := h
+  simp only at h1 h2
+  subst h2
+  cases ds with
+  | nil => simp at h1
+  | cons d ds =>
+    cases ds with
+    | nil =>
+      simp only [List.map_cons, List.map_nil, List.cons.injEq, and_true] at h1
+      exact ⟨d, rfl, h1⟩
+    | cons d' ds => simp at h1
+
+/-- The datum of a value carries no source locations, so "up to locations" can be dropped on
+that side. -/
+theorem datumOf_strip (σ : Store) (v : Value) : (datumOf σ v).strip = datumOf σ v :=
+  strip_datumN σ _ v
+
+/-- the sample text reads back as one datum, the sample datum -/
+example : ∃ d, Read.all text.toList = ([d], none) ∧ d.strip = datum := by
+  have h := display_read_roundtrip store value 100000 (by decide) (by decide)
+  have e : Prim.display store 100000 value = text := by
+    rw [display_is_show store value 100000 (by decide) (by decide)]; decide
+  rw [e, datumOf_strip] at h
+  exact h
 
 end Ruschm.C16
